@@ -519,6 +519,17 @@ func (g *docGen) operation(kind, name string) string {
 		g.field(&b, root, Pick(r, root.Fields), 2, "  ", newScope(), false)
 		if g.fault("subscription-two-roots", 4) {
 			g.field(&b, root, Pick(r, root.Fields), 1, "  ", newScope(), false)
+		} else if g.fault("subscription-root-through-fragment", 4) {
+			// the second top-level field arrives through a named fragment, on the
+			// subscription type itself or on some other existing type
+			t := root
+			if r.Chance(1, 2) {
+				t = Pick(r, g.s.byKind("OBJECT"))
+			}
+			g.nfrag++
+			fn := "S" + strconv.Itoa(g.nfrag)
+			g.frags = append(g.frags, "fragment "+fn+" on "+t.Name+" {\n"+g.leafOnly(t, "  ")+"  extra: __typename\n}\n")
+			b.WriteString("  ..." + fn + "\n")
 		}
 		body = b.String()
 	} else if root == nil {
